@@ -44,6 +44,11 @@ def fe_is_zero(I, x):
         zh[xn.key()] = xn
     return r
 
+def zero_key(x):
+    """the decision key fe_is_zero uses for the polynomial x"""
+    sg = x.lead_sign(); xn = x if sg > 0 else x.neg()
+    return 'zero:' + xn.key()
+
 def strip_nonzero(x, nz):
     """divide out powers of symbols known to be nonzero that are common to every monomial (a field has no zero divisors)"""
     for v in nz:
@@ -556,7 +561,62 @@ def m_option_filter(I, fr, fn, a):
     if e.variant == 'None': return e
     return e if I.truth(I.call_closure(fr, f, [_tmp_ref(I, e.fields[0])])) else none()
 
+def _ity(fn):
+    m = re.search(r'<impl (\w+)>::\w+$', fn) or re.match(r'^<(\w+) as ', fn)
+    return m.group(1) if m else None
+def _wrapi(v, ty):
+    bits = INT_BITS[ty]; v &= (1 << bits) - 1
+    if ty.startswith('i') and v >> (bits - 1): v -= 1 << bits
+    return v
+def m_int_minmax(I, fr, fn, a):
+    x, y = D(I, a[0]), D(I, a[1])
+    if not (isinstance(x, int) and isinstance(y, int)): return NotImplemented
+    return min(x, y) if fn.endswith('min') else max(x, y)
+def m_int_cmp(I, fr, fn, a):
+    x, y = D(I, a[0]), D(I, a[1])
+    if not (isinstance(x, int) and isinstance(y, int)): return NotImplemented
+    return Enum('core::cmp::Ordering', 'Less' if x < y else ('Equal' if x == y else 'Greater'), [])
+def m_int_wrapping(I, fr, fn, a):
+    ty = _ity(fn); op = fn.split('::')[-1]
+    x, y = a[0], a[1]
+    if not (isinstance(x, int) and isinstance(y, int)): return NotImplemented
+    r = {'wrapping_add': x + y, 'wrapping_sub': x - y, 'wrapping_mul': x * y}[op]
+    return _wrapi(r, ty)
+def m_int_checked(I, fr, fn, a):
+    ty = _ity(fn); op = fn.split('::')[-1]; x, y = a[0], a[1]
+    if not (isinstance(x, int) and isinstance(y, int)): return NotImplemented
+    if op in ('checked_div', 'checked_rem') and y == 0: return none()
+    r = {'checked_add': x + y, 'checked_sub': x - y, 'checked_mul': x * y, 'checked_div': x // y if y else 0, 'checked_rem': x % y if y else 0}[op]
+    return some(r) if _wrapi(r, ty) == r else none()
+def m_int_saturating(I, fr, fn, a):
+    ty = _ity(fn); op = fn.split('::')[-1]; x, y = a[0], a[1]
+    if not (isinstance(x, int) and isinstance(y, int)): return NotImplemented
+    bits = INT_BITS[ty]; lo, hi = (-(1 << (bits - 1)), (1 << (bits - 1)) - 1) if ty.startswith('i') else (0, (1 << bits) - 1)
+    r = {'saturating_add': x + y, 'saturating_sub': x - y, 'saturating_mul': x * y}[op]
+    return max(lo, min(hi, r))
+def m_int_bits(I, fr, fn, a):
+    ty = _ity(fn); op = fn.split('::')[-1]; x = a[0]; bits = INT_BITS[ty]
+    if not isinstance(x, int): return NotImplemented
+    u = x & ((1 << bits) - 1)
+    if op == 'leading_zeros': return bits - u.bit_length()
+    if op == 'trailing_zeros': return bits if u == 0 else (u & -u).bit_length() - 1
+    if op == 'count_ones': return bin(u).count('1')
+    if op == 'is_power_of_two': return u != 0 and u & (u - 1) == 0
+    if op == 'swap_bytes': return int.from_bytes(u.to_bytes(bits // 8, 'little'), 'big')
+    return NotImplemented
+def m_to_be_bytes(I, fr, fn, a):
+    bits = INT_BITS[_ity(fn)]; v = a[0]
+    if isinstance(v, int): return [(v >> (8 * i)) & 255 for i in reversed(range(bits // 8))]
+    return [z3.simplify(z3.Extract(8 * i + 7, 8 * i, v)) for i in reversed(range(bits // 8))]
+def m_from_be_bytes(I, fr, fn, a): return m_from_le_bytes(I, fr, fn, [list(reversed(a[0]))])
+
 STD_FNS = [
+    (r'^<[ui](8|16|32|64|128|size) as core::cmp::Ord>::(min|max)$', m_int_minmax), (r'^core::cmp::(min|max)::<[ui](8|16|32|64|128|size)>$', m_int_minmax),
+    (r'^<[ui](8|16|32|64|128|size) as core::cmp::Ord>::cmp$', m_int_cmp),
+    (r'^core::num::<impl \w+>::wrapping_(add|sub|mul)$', m_int_wrapping), (r'^core::num::<impl \w+>::checked_(add|sub|mul|div|rem)$', m_int_checked),
+    (r'^core::num::<impl \w+>::saturating_(add|sub|mul)$', m_int_saturating),
+    (r'^core::num::<impl \w+>::(leading_zeros|trailing_zeros|count_ones|is_power_of_two|swap_bytes)$', m_int_bits),
+    (r'^core::num::<impl \w+>::to_be_bytes$', m_to_be_bytes), (r'^core::num::<impl \w+>::from_be_bytes$', m_from_be_bytes),
     (r'^core::slice::<impl \[.*\]>::(first|last)_chunk::<\d+>$', m_first_chunk),
     (r'^core::slice::<impl \[.*\]>::get::', m_slice_get),
     (r'^core::slice::<impl \[.*\]>::is_empty$', m_slice_is_empty),
@@ -617,7 +677,7 @@ STD_FNS = [
     (r'^core::slice::<impl \[.*\]>::len$', m_slice_len),
     (r'^core::slice::<impl \[.*\]>::copy_from_slice$', m_copy_from_slice),
     (r'^core::slice::<impl \[.*\]>::reverse$', m_slice_reverse),
-    (r'^alloc::slice::<impl \[.*\]>::to_vec$', m_slice_to_vec),
+    (r'^(alloc|ark_std|std|ark_ff)::slice::<impl \[.*\]>::to_vec$', m_slice_to_vec),
     (r'^<.* as core::ops::Index(Mut)?<core::ops::Range(To|From|Full)?(<usize>)?>>::index(_mut)?$', m_index_range),
     (r'^<.* as core::ops::Index(Mut)?<usize>>::index(_mut)?$', m_index_usize),
     (r'^<\[\w+; \d+\] as core::cmp::PartialEq>::eq$', m_array_eq),
